@@ -942,7 +942,7 @@ class VBGMM(BGMM):
         tiny = 1.e-15
         if like is None:
             like = self._Estep(x)
-            like = (like.T / np.maximum(like.sum(1), tiny)).T
+            like = ((like.T + tiny / like.shape[1]) / (like.sum(1) + tiny)).T
 
         pop = like.sum(0)[:self.k]
         pop = np.reshape(pop, (self.k, 1))
@@ -1102,7 +1102,7 @@ class VBGMM(BGMM):
                 av_ll_old = av_ll
             if verbose:
                 print(i, av_ll, self.bic(like))
-            like = (like.T / np.maximum(like.sum(1), tiny)).T
+            like = ((like.T + tiny / like.shape[1]) / (like.sum(1) + tiny)).T
             self._Mstep(x, like)
 
     def likelihood(self, x):
@@ -1132,6 +1132,6 @@ class VBGMM(BGMM):
         like array of shape (nb_samples, self.k):
           the likelihood of each item being in each class
         """
-        slike = np.maximum(tiny, np.sum(like, 1))
-        nlike = (like.T / slike).T
+        slike = np.sum(like, 1) + tiny
+        nlike = ((like.T + tiny / like.shape[1]) / slike).T
         return np.sum(nlike, 0)
